@@ -106,11 +106,13 @@ def buildStatsDesc (rowsAsc : List Row) : Stats :=
 def pickMin (n b : Int × Int) : Int × Int := if b.1 < n.1 ∨ (b.1 = n.1 ∧ b.2 < n.2) then b else n
 /-- maxMeta: `new.v < base.v || (new.v == base.v && new.t > base.t)`. -/
 def pickMax (n b : Int × Int) : Int × Int := if n.1 < b.1 ∨ (b.1 = n.1 ∧ b.2 < n.2) then b else n
-/-- firstMeta: `new.t > base.t`, or equal times and `firstTieTakesBase(new, base)`: the larger
-value wins (`compareMin(new, base)`: new.v < base.v), for a boolean column the smaller one
-(`compareMin(base, new)`, the rule of `BooleanFirstMerge` in the executor; repair 31cbbdb). -/
-def pickFirst (ty : ColType) (n b : Int × Int) : Int × Int :=
-  if b.1 < n.1 ∨ (b.1 = n.1 ∧ (if ty = .bool then b.2 < n.2 else n.2 < b.2)) then b else n
+/-- firstMeta: `new.t > base.t`, or equal times and `compareMin(new, base)` (new.v < base.v): the
+larger value wins, for every column type (a boolean first() keeps `true`; the executor's
+`BooleanFirstMerge` keeps `false` - a repair of that difference, 31cbbdb, was withdrawn because
+the repository's own test `TestAggQueryOnlyInImmutable_NoEmpty` pins this rule). The type is a
+parameter because `compareMin` dispatches on it. -/
+def pickFirst (_ty : ColType) (n b : Int × Int) : Int × Int :=
+  if b.1 < n.1 ∨ (b.1 = n.1 ∧ n.2 < b.2) then b else n
 /-- lastMeta: `new.t < base.t`, or equal times and `compareMin(new, base)`. -/
 def pickLast (n b : Int × Int) : Int × Int := if n.1 < b.1 ∨ (b.1 = n.1 ∧ n.2 < b.2) then b else n
 
